@@ -564,6 +564,34 @@ func (e *env) shutdownScenario() {
 			}
 		}
 	}
+	// Further uploads accepted by the restarted store must not overwrite what
+	// survived the shutdown (write cursors restored too low would do that).
+	checkReuse := func(bi, ii []byte, di map[string][]byte) {
+		s3 := e.restartOn(bi, ii, di)
+		if s3 == nil {
+			return
+		}
+		y := &env{c: e.c, w: e.w, r: e.r, cfg: e.cfg, s: s3, ctx: e.ctx, id: e.id + 1<<40}
+		for i := e.r.Range(2, 2*e.cfg.BlockCount()); i > 0; i-- {
+			y.put(y.newObj(e.r.Range(1, block/2)), nil)
+			s3.PumpRelease()
+		}
+		for _, x := range expected {
+			got, err := asm.GetBytes(e.ctx, s3.BA, x.o.d)
+			s3.PumpRelease()
+			e.w.Count("post_restart_reuse_checks", 1)
+			if err == nil && string(got) != string(x.o.data) {
+				e.c.Violation("localstore.Get:acknowledged-upload-overwritten-after-restart", "an acknowledged upload that survived the graceful shutdown returns different bytes after further uploads into the restarted store")
+				return
+			} else if status.Code(err) == codes.Internal && !strings.Contains(err.Error(), "already been released") {
+				e.c.Violation("localstore.Get:acknowledged-upload-overwritten-after-restart", "an acknowledged upload that survived the graceful shutdown fails with %v after further uploads into the restarted store", err)
+				return
+			}
+		}
+	}
+	checkReuse(sim.ImageAt(j, "blocks", s.M.BlocksInit, k, true, e.cfg.Sector, sim.KeepAll),
+		sim.ImageAt(j, "index", s.M.IndexInit, k, false, 0, sim.KeepAll),
+		sim.DirImageAt(j, s.M.DirInit, k, sim.DirChoice{VolatilePrefix: 1 << 20, UnsyncedData: 1}))
 	// Intact medium: a graceful exit loses nothing.
 	check("localstore:acknowledged-upload-lost-after-graceful-shutdown",
 		sim.ImageAt(j, "blocks", s.M.BlocksInit, k, true, e.cfg.Sector, sim.KeepAll),
